@@ -69,6 +69,48 @@ def random_jobs(label, n, seed, styles=("uniform", "pct")):
     return [{"id": "%s-r%d" % (label, i), "mode": "random", "seed": rnd.randrange(1 << 48), "style": styles[i % len(styles)]} for i in range(n)]
 
 
+def pb_explore(ctx, exe, scen, label, bound, cap, nproc=8):
+    """Preemption-bounded systematic exploration of the REAL code under the deterministic scheduler (stateless search in the
+    style of CHESS): every schedule with at most `bound` preemptions (a switch away from a thread that could have continued),
+    up to `cap` executions.  Independent of the step-level model: it also reaches interleavings of steps the model does not
+    have (a changed implementation).  Each execution is a 'choices' job with a non-preemptive tail; the harness reports the
+    enabled set before every step, from which the next wave of prefixes is derived."""
+    results = []
+    frontier = [([], 0)]
+    wave = 0
+    truncated = False
+    while frontier:
+        room = cap - len(results)
+        if room <= 0:
+            truncated = True
+            break
+        if len(frontier) > room:
+            truncated = True
+            random.Random(ctx.seed + wave).shuffle(frontier)
+            frontier = frontier[:room]
+        jobs = [{"id": "%s-pb%d_%d" % (label, wave, i), "mode": "choices", "choices": pref, "tail": "sticky", "trace_enabled": True} for i, (pref, _) in enumerate(frontier)]
+        meta = {j["id"]: f for j, f in zip(jobs, frontier)}
+        res = run_jobs(ctx, exe, scen, jobs, "pb%s%d" % (label, wave), nproc=nproc)
+        nxt = []
+        for x in res:
+            pref, used = meta[x["id"]]
+            ch, en = x["choices"], x.get("enabled", [])
+            en_ = x.pop("enabled", None)
+            if x.get("nonterm") or x.get("diverged"):
+                continue
+            for i in range(len(pref), min(len(ch), len(en))):
+                for a in en[i]:
+                    if a == ch[i]:
+                        continue
+                    cost = 1 if (i > 0 and ch[i - 1] in en[i] and a != ch[i - 1]) else 0
+                    if used + cost <= bound:
+                        nxt.append((ch[:i] + [a], used + cost))
+        results += res
+        frontier = nxt
+        wave += 1
+    return results, {"executions": len(results), "waves": wave, "bound": bound, "complete": not truncated}
+
+
 def dedup_histories(results, extra):
     """Distinct API histories (by calls+final) -> list of (history record, job id)."""
     seen = {}
